@@ -423,6 +423,67 @@ func newGeneratorInterp(L *Loaded) (*Interp, func() *Obj) {
 		w.set("isRef", boolV(false))
 		return w, true
 	}
+	in.Models["compiler.(*compiler).createIfElse"] = func(in *Interp, pkg *packages.Package, call *ast.CallExpr, recv Val, args []Val) (Val, bool) {
+		in.event("ifelse-begin", "", call.Pos(), args[0])
+		in.event("then-begin", "", call.Pos())
+		if f, ok := args[1].(Closure); ok {
+			if _, ab := in.callClosure(f, nil).(abortV); ab {
+				return abortV{}, true
+			}
+		}
+		in.event("then-end", "", call.Pos())
+		in.event("else-begin", "", call.Pos())
+		if f, ok := args[2].(Closure); ok {
+			if _, ab := in.callClosure(f, nil).(abortV); ab {
+				return abortV{}, true
+			}
+		}
+		in.event("else-end", "", call.Pos())
+		in.event("ifelse-end", "", call.Pos())
+		return TupleV(nil), true
+	}
+	in.Models["compiler.(*compiler).createTernary"] = func(in *Interp, pkg *packages.Package, call *ast.CallExpr, recv Val, args []Val) (Val, bool) {
+		var a, b Val = Unk{"ternary"}, Unk{"ternary"}
+		if f, ok := args[1].(Closure); ok {
+			a = in.callClosure(f, nil)
+		}
+		if f, ok := args[2].(Closure); ok {
+			b = in.callClosure(f, nil)
+		}
+		av, bv := asIR(a), asIR(b)
+		return &IRVal{Op: "select", Args: []*IRVal{asIR(args[0]), av, bv}, Class: av.Class}, true
+	}
+	in.Models["compiler.(*compiler).createFor"] = func(in *Interp, pkg *packages.Package, call *ast.CallExpr, recv Val, args []Val) (Val, bool) {
+		iv := &IRVal{Op: "loopvar", Class: "i64"}
+		var cond Val = Unk{"cond"}
+		if f, ok := args[1].(Closure); ok {
+			cond = in.callClosure(f, []Val{iv})
+		}
+		in.event("for-begin", "", call.Pos(), args[0], cond)
+		if f, ok := args[2].(Closure); ok {
+			in.callClosure(f, []Val{iv})
+		}
+		in.event("for-end", "", call.Pos())
+		return TupleV(nil), true
+	}
+	in.Models["compiler.(*compiler).memcpyArr"] = func(in *Interp, pkg *packages.Package, call *ast.CallExpr, recv Val, args []Val) (Val, bool) {
+		in.event("memcpyArr", "", call.Pos(), args...)
+		return &IRVal{Op: "call", Class: "ptr"}, true
+	}
+	in.Models["compiler.(*compiler).growCapacity"] = func(in *Interp, pkg *packages.Package, call *ast.CallExpr, recv Val, args []Val) (Val, bool) {
+		return &IRVal{Op: "growCapacity", Args: []*IRVal{asIR(args[0])}, Class: "i64"}, true
+	}
+	in.Models["compiler.(*compiler).allocateArr"] = func(in *Interp, pkg *packages.Package, call *ast.CallExpr, recv Val, args []Val) (Val, bool) {
+		return &IRVal{Op: "allocateArr", Args: []*IRVal{asIR(args[1])}, Class: "ptr"}, true
+	}
+	in.Models["compiler.(*compiler).insertFunction"] = noop
+	in.Models["compiler.(*compiler).indexArray"] = func(in *Interp, pkg *packages.Package, call *ast.CallExpr, recv Val, args []Val) (Val, bool) {
+		in.event("indexArray", "", call.Pos(), args[0], args[1])
+		return &IRVal{Op: "elementptr", Args: []*IRVal{asIR(args[0]), asIR(args[1])}, Class: "ptr"}, true
+	}
+	in.Models["compiler.(*compiler).compareAnyType"] = func(in *Interp, pkg *packages.Package, call *ast.CallExpr, recv Val, args []Val) (Val, bool) {
+		return &IRVal{Op: "compareAnyType", Args: []*IRVal{asIR(args[0])}, Class: "i1"}, true
+	}
 	in.Models["compiler.(*compiler).deepCopyInto"] = func(in *Interp, pkg *packages.Package, call *ast.CallExpr, recv Val, args []Val) (Val, bool) {
 		in.event("deepCopy", "", call.Pos())
 		return args[0], true
